@@ -2,6 +2,7 @@
 Totality of the model builder: no stage records a trap, for every byte string and every legal
 option combination whose (forced or automatic) mode can represent the input.
 -/
+import FastQr.Props.C11Masks
 import FastQr.Proofs.BuildSound
 import FastQr.Proofs.StructSize
 import FastQr.Proofs.CandidateLight
